@@ -6,7 +6,7 @@ PROP_MODULE = "NeverModel.Props.C09"
 
 def check(tier, seed):
     rep = Report("C09", tier, seed, "proof")
-    ok = proof_stage(rep, PROP_MODULE, required=["Never.C09.inv_history", "Never.C09.collect_exact", "Never.C09.free_inv_basics", "Never.C09.vm_step_keeps_bookkeeping", "Never.C09.vm_heap_bookkeeping_invariant"])
+    ok = proof_stage(rep, PROP_MODULE, required=["Never.C09.inv_history", "Never.C09.collect_exact", "Never.C09.free_inv_basics", "Never.C09.vm_step_keeps_bookkeeping", "Never.C09.vm_heap_bookkeeping_invariant", "Never.C09.vm_reads_hit_allocated", "Never.C09.vm_touch_allocated_partial"])
     res = gc_corr.run_correspondence(rep, tier, seed)
     rep.cov.update(trusted_base=["Lean 4.33 kernel", "axioms: propext, Classical.choice, Quot.sound",
                                  "correspondence harness h_gc.c + gc_corr.py (generator, state printer)",
